@@ -131,9 +131,9 @@ def record_visual(chk, name, kind, seed, vis_kind="euclid", vis_thr=None, min_vo
 def _validate_v(args):
     i, trace, workdir = args
     ok, r, rej = vlib.validate_trace(T / "VisualTrace.tla", T / "vtrace.cfg", trace, f"vt-{i}", workdir, timeout=900)
-    stats = [0, 0, 0, 0]
+    stats = [0, 0, 0, 0, 0, 0]
     try:
-        m = re.search(r"VSTATS <<(\d+), (\d+), (\d+), (\d+)>>", open(r.out).read())
+        m = re.search(r"VSTATS <<(\d+), (\d+), (\d+), (\d+), (\d+), (\d+)>>", open(r.out).read())
         if m:
             stats = [int(x) for x in m.groups()]
     except OSError:
@@ -143,9 +143,10 @@ def _validate_v(args):
 
 def validate_visual(chk, traces, focus):
     """One TLC run per recorded visual trace; a rejection is reported for `focus` only if a failed conjunct concerns it.
-    Returns the summed non-vacuity counters [loose, with claims, with a lost claim, fallback next to appearance]."""
+    Returns the summed non-vacuity counters [loose, with claims, with a lost claim, fallback next to appearance,
+    continuations of a full gallery, features refused by the collect gate]."""
     jobs = [(i, t, chk.workdir) for i, t in enumerate(traces)]
-    tot = [0, 0, 0, 0]
+    tot = [0, 0, 0, 0, 0, 0]
     with cf.ThreadPoolExecutor(max_workers=6) as ex:
         for i, ok, gen, dist, rej, stats in ex.map(_validate_v, jobs):
             chk.cov["states"] += dist
